@@ -13,10 +13,10 @@ Data == Traces[tid].data
 E == Tr[l]
 Flag(c, ok) == IF ok THEN {} ELSE {c}
 Init == tid \in 1..Len(Traces) /\ l = 1 /\ first = <<>> /\ bad = {}
-Dom == InDomain(Data)
+Dom == InDomainFlat(Data)
 EvParsed == /\ E.t = "parsed"
-            /\ bad' = bad \cup Flag("C20_Body", Dom => E.b = Body(Data))
-                          \cup Flag("C20_Headers", Dom => E.h = NormEOL(HeaderBlock(Data)))
+            /\ bad' = bad \cup Flag("C20_Body", Dom => E.b = BodyFlat(Data))
+                          \cup Flag("C20_Headers", Dom => E.h = NormEOLByLine(HeaderBlockFlat(Data)))
             /\ first' = <<E.h, E.b>>
 EvSame(kind, clause) == /\ E.t = kind
                         /\ bad' = bad \cup Flag(clause, first # <<>> /\ (Dom => <<E.h, E.b>> = first))
